@@ -183,6 +183,7 @@ class Machine:
         self.regs = {}           # register -> implementation object
         self.next = 0
         self.meta = []           # per line: free-form dict for the evidence (op name, shapes, flags)
+        self.exact_lines = set() # lines whose model/implementation comparison is bit-exact (exact mode)
 
     # -- plumbing ------------------------------------------------------------------------------
     def new(self):
@@ -608,7 +609,7 @@ def compare(machine, lean_res, tol=TOL):
             if lr[0] != "ok":
                 out.append((i, head, [f"implementation ok, model {lr[0]} {lr[1] if len(lr) > 1 else ''}"]))
                 continue
-            p = compare_dump(imp[1], lr[1], tol)
+            p = compare_dump(imp[1], lr[1], 0.0 if i in machine.exact_lines else tol)
             if p:
                 out.append((i, head, p))
         elif imp[0] == "refuse":
